@@ -54,6 +54,9 @@ def run_t2(rep, comp, rng, tier, kind="rel", budget_scale=1.0):
     iout, ierr = vlib.run_sharded(exe, lines, timeout=600, env=env)
     t2 = time.time()
     mism = []
+    if len(mout) != len(lines) or len(iout) != len(lines):
+        raise vlib.BuildError("driver protocol error for %s: %d cases, %d model answers, %d implementation answers"
+                              % (comp.name, len(lines), len(mout), len(iout)))
     for i, (l, m, o) in enumerate(zip(lines, mout, iout)):
         rep.count(comp.name, l, nontrivial=True)
         if comp.norm(l, m) != comp.norm(l, o):
@@ -173,10 +176,17 @@ def main():
 
     # ---------------- P: proofs ----------------
     proof_ok = True
-    if not args.no_proof:
-        ok, out = vlib.coq_make()
-        bad = vlib.scan_forbidden()
+    if not args.no_proof and getattr(prop, "LEVEL", "proof") != "proof" and not vlib.property_files(pid)[0]:
+        rep.notes.append("no Coq theorems are claimed for this property (level %s): the proof step is skipped" % prop.LEVEL)
+    elif not args.no_proof:
+        # build exactly what this property rests on: its Properties files, the extracted models its correspondence
+        # runs, and their imports (a slice of another property that is being worked on cannot break this check)
+        slices_ = [c.slice for c in prop.components() if getattr(c, "slice", "")]
+        tops, closure = vlib.property_files(pid, slices_)
+        ok, out = vlib.coq_make([t[:-2] + ".vo" for t in tops])
+        bad = vlib.scan_forbidden(closure)
         pr = vlib.check_properties_file(pid)
+        rep.model_files = closure
         rep.obligations = pr["theorems"]
         rep.discharged = sum(1 for t in pr["theorems"] if t["checked"])
         axioms = sorted({a for t in pr["theorems"] for a in t["axioms"]})
